@@ -447,7 +447,12 @@ func checkC20(tier string) int {
 		scripts: []string{"ons", "governance", "transfers"},
 		nhQ:     8, nhT: 50, blQ: 48, blT: 150,
 		params: func(i int, hseed int64) world.Params {
-			return world.Params{Frankenstein: 1, NumGenesisVals: 4}
+			p := world.Params{Frankenstein: 1, NumGenesisVals: 4}
+			if i%8 == 6 {
+				// a price of ten OLT per block: more base units than a 64-bit integer holds
+				p.PerBlockFees = "10000000000000000000"
+			}
+			return p
 		},
 		tune: func(cfg *drive.Cfg, i int) {
 			cfg.Honest = i%2 == 0 // the others let a byzantine proposer deliver the script's must-fail traffic
